@@ -361,7 +361,7 @@ class MediaCombineDisallowed(Exception):
         return self.args[0]
 
     def _combinable(rule):
-        combinable = rule.COMMENT, rule.STYLE_RULE, rule.IMPORT_RULE
+        combinable = rule.COMMENT, rule.STYLE_RULE
         return rule.type in combinable
 
 
